@@ -156,8 +156,8 @@ pub struct FailPlan {
 	pub after: u32,
 	pub errno: i32,
 	pub sticky: bool,
-	/// Restrict to one event kind (None = any failable kind).
-	pub only: Option<Ev>,
+	/// Restrict to a set of event kinds (bit = 1 << kind; 0 = any failable kind).
+	pub only_mask: u32,
 }
 
 #[derive(Clone, Debug, Default)]
@@ -417,6 +417,9 @@ impl Disk {
 			return None
 		}
 		let plan = self.fail_plan.as_ref()?;
+		if plan.only_mask != 0 && plan.only_mask & (1 << kind as u32) == 0 {
+			return None
+		}
 		if plan.sticky && self.fail_tripped {
 			self.counters.errno_injected += 1;
 			self.fail_count += 1;
@@ -424,11 +427,6 @@ impl Disk {
 		}
 		if !self.armed {
 			return None
-		}
-		if let Some(only) = plan.only {
-			if only != kind {
-				return None
-			}
 		}
 		if self.fail_tripped {
 			return None
